@@ -1068,6 +1068,15 @@ package lisp
 //@   keeps LVal.sealed
 //@   property C09
 
+// A helper builtins call directly: New checks the typedef and calls the
+// constructor through FunCall, so it keeps sealed nodes; proved here so that
+// builtinNew can rely on it.  (The renderers str/strNested/errorMessage and
+// equal, findAndUnquote are not under contract: builtins whose error paths
+// call them have their keeps clause undecided, see DESIGN 8.5.)
+//@ func (*LEnv).New
+//@   keeps LVal.sealed
+//@   property C09
+
 // An error value is never a parsed node (the parser seals only lists, quotes,
 // symbols, strings and numbers: sealAST), so the two setters that write error
 // values cannot touch a sealed one.  `sealedKinds` is the part of the
